@@ -48,6 +48,9 @@ def r4(ctx, cfg):
     from rules import C06
     C06.r2(ctx, cfg, R="C10.R4")
     C06.r4(ctx, cfg, R="C10.R4")
+    # .. and range reads merge the pending writes of the same window with the base (same bounds, same order)
+    C06.r5(ctx, cfg, R="C10.R4")
+    C06.r6(ctx, cfg, R="C10.R4")
 
 
 def _storage_inputs(inputs):
